@@ -61,12 +61,61 @@ let parse_chunk (toks : string list) : M.rqchunk * string list =
          rqc_idata = (i = "1"); rqc_data = List.map cz d }, rest')
   | _ -> failwith "chunk"
 
+
+(* ---- loading a dumped state into the model (step-commuting records from the simulator) ---- *)
+let int_tok = function x :: r -> (int_of_string x, r) | [] -> failwith "tok"
+let str_tok = function x :: r -> (x, r) | [] -> failwith "tok"
+let expect t = function x :: r when x = t -> r | _ -> failwith ("expected " ^ t)
+
+let rec parse_n n f toks = if n <= 0 then ([], toks) else
+  let (x, r) = f toks in let (xs, r') = parse_n (n - 1) f r in (x :: xs, r')
+
+let parse_set toks =
+  let (key, r) = str_tok toks in let (ppi, r) = str_tok r in let (n, r) = int_tok r in
+  let (cs, r) = parse_n n parse_chunk r in
+  ({ M.rqs_key = cz key; rqs_ppi = cz ppi; rqs_chunks = cs }, r)
+
+let parse_sets tag toks =
+  let r = expect tag toks in let (n, r) = int_tok r in parse_n n parse_set r
+
+let parse_rq sid maxent toks : M.rq * string list =
+  let r = expect "dump" toks in
+  let (nssn, r) = str_tok r in let (nmid, r) = str_tok r in let (inter, r) = str_tok r in let (nb, r) = str_tok r in
+  let (o, r) = parse_sets "O" r in let (u, r) = parse_sets "U" r in
+  let r = expect "C" r in let (nc, r) = int_tok r in let (uc, r) = parse_n nc parse_chunk r in
+  let (om, r) = parse_sets "OM" r in let (um, r) = parse_sets "UM" r in
+  let r = expect "MAP" r in let (nm, r) = int_tok r in
+  let (mp, r) = parse_n nm (fun t -> let (_, t) = str_tok t in parse_set t) r in
+  let r = expect "OMAP" r in let (no, r) = int_tok r in
+  let (_, r) = parse_n no (fun t -> let (_, t) = str_tok t in let (_, t) = str_tok t in ((), t)) r in
+  ({ M.rq_si = cz sid; rq_nextSSN = cz nssn; rq_nextMID = cz nmid; rq_ordered = o; rq_unordered = u; rq_uchunks = uc;
+     rq_orderedMID = om; rq_unorderedMID = um; rq_umidmap = mp; rq_inter = (inter = "1"); rq_nbytes = cz nb;
+     rq_max = cz maxent }, r)
+
+let parse_state buf maxent il toks : M.e2e_rcv =
+  let r = expect "state" toks in
+  let (cum, r) = str_tok r in let (tail, r) = str_tok r in let (size, r) = str_tok r in let (mo, r) = str_tok r in
+  let (nw, r) = str_tok r in let (nnz, r) = int_tok r in
+  let (words, r) = parse_n nnz (fun t -> let (i, t) = int_tok t in let (v, t) = str_tok t in ((i, Z.of_string v), t)) r in
+  let bits = List.concat (List.map (fun (i, v) ->
+    List.filter_map (fun b -> if Z.testbit v b then Some (czi (i * 64 + b)) else None) (List.init 64 (fun b -> b))) words) in
+  let (nd, r) = int_tok r in let (dups, r) = parse_n nd str_tok r in
+  let r = expect "S" r in let (ns, r) = int_tok r in
+  let (streams, r) = parse_n ns (fun t -> let t = expect "sid" t in let (sid, t) = str_tok t in
+                                          let (q, t) = parse_rq sid maxent t in ((cz sid, q), t)) r in
+  let r = expect "A" r in let (ab, _) = str_tok r in
+  { M.e2e_pq = { M.cum = cz cum; tail = cz tail; size = cz size; bits = bits; dups = List.map cz dups;
+                 max_off = cz mo; nwords = cz nw };
+    e2e_streams = streams; e2e_buf = cz buf; e2e_maxent = cz maxent; e2e_il = il; e2e_abort = (ab = "1") }
+
+(* the bitmap is compared as words, so the order of the loaded bit positions is irrelevant *)
+
 let run path =
   let cases = read_cases path in
   let ncase = ref 0 in
   let n_arr = ref 0 and n_rd = ref 0 and n_state = ref 0 in
   let o_wrong = ref 0 and o_nostream = ref 0 and o_stored = ref 0 and o_err = ref 0 and o_full = ref 0 and o_na = ref 0 in
-  let rd_ok = ref 0 in
+  let rd_ok = ref 0 and n_load = ref 0 in
   List.iter (fun (name, lines) ->
     incr ncase;
     let st = ref (M.e2e_new (czi 1) (czi 1024) (czi 0) false) in
@@ -77,6 +126,10 @@ let run path =
         let bad what m im = report name (i+1) what m im; stop := true in
         match toks with
         | ["new"; tsn; buf; mx; il] -> st := M.e2e_new (cz tsn) (cz buf) (cz mx) (il = "1")
+        | "load" :: buf :: mx :: il :: rest ->
+            incr n_load;
+            (try st := parse_state buf mx (il = "1") rest
+             with Failure m -> bad ("unparsed load: " ^ m) "" "")
         | "arr" :: rest ->
             incr n_arr;
             (try
@@ -109,5 +162,5 @@ let run path =
             if m <> im then bad "state" m im
         | _ -> bad "unparsed line" "" (String.concat " " toks)
       end) lines) cases;
-  Printf.printf "SUMMARY component=e2e cases=%d records=%d mismatches=%d arrivals=%d stored=%d stored_with_error=%d full_dropped=%d not_acceptable=%d no_stream=%d wrong_kind=%d reads=%d reads_ok=%d states=%d\n"
-    !ncase !records !mismatches !n_arr !o_stored !o_err !o_full !o_na !o_nostream !o_wrong !n_rd !rd_ok !n_state
+  Printf.printf "SUMMARY component=e2e cases=%d records=%d mismatches=%d arrivals=%d stored=%d stored_with_error=%d full_dropped=%d not_acceptable=%d no_stream=%d wrong_kind=%d reads=%d reads_ok=%d states=%d loaded_states=%d\n"
+    !ncase !records !mismatches !n_arr !o_stored !o_err !o_full !o_na !o_nostream !o_wrong !n_rd !rd_ok !n_state !n_load
